@@ -8,14 +8,15 @@ import BqVerif.Drivers.Util
 
 Labels: `crash n t`, `recvEmp p e f | emits`, `recvUp n f | emits`, `recvClient c f | emits`,
 `flush n`, `outReset n`, `wake n c`, `wsend w msg`, `wrecv w`, `ccall c msg`, `cwake c`.
-Messages: S shutdown, R.m.v, E sysError, o.k other, B broken, q.m request, s submit,
-d disconnect, X error, r.k reply.  Emits: `u:msg`, `e<i>:msg`, `c<i>:msg`. -/
+Messages: S shutdown, R.m.v, E sysError, o.k other, B broken, q.k request, s.k submit (k-th task of the client),
+d disconnect, X error, r.k reply.  Emits: `u:msg`, `e<i>:msg`, `c<i>:msg`.
+Stateless: `recvall <eof> | msgs`, `predrain <eof> | msgs` (the client's receive loops). -/
 namespace BqVerif.Drv.Crash
 open BqVerif.Crash BqVerif.Drv
 
 def showMsg : Msg → String
   | .shutdown => "S" | .result m v => s!"R.{m}.{v}" | .sysError => "E" | .other k => s!"o.{k}"
-  | .broken => "B" | .request m => s!"q.{m}" | .submit => "s" | .disconnect => "d"
+  | .broken => "B" | .request m => s!"q.{m}" | .submit k => s!"s.{k}" | .disconnect => "d"
   | .error => "X" | .reply k => s!"r.{k}"
 
 def parseMsg (tok : String) : Option Msg :=
@@ -26,7 +27,7 @@ def parseMsg (tok : String) : Option Msg :=
   | ["o", k] => k.toNat?.map .other
   | ["B"] => some .broken
   | ["q", m] => m.toNat?.map .request
-  | ["s"] => some .submit
+  | ["s", k] => k.toNat?.map .submit
   | ["d"] => some .disconnect
   | ["X"] => some .error
   | ["r", k] => k.toNat?.map .reply
@@ -125,6 +126,17 @@ def stepLine (st : St) (line : String) : St × String :=
         s!"pot={potential st.t st.s d} path={showList (path st.t d)}")
     | none => (st, "parse-error")
   | ["show"] => (st, showState st.t st.nc st.s)
+  | ["recvall", eof] =>
+    -- stateless: `recvall <eof 0|1> | msgs`  ->  what `_recv_handle_log_error` does
+    match parseBool eof, ((gs.drop 1).headD []).mapM parseMsg with
+    | some e, some ms =>
+      (st, match recvAll ms none e with
+        | .returned m => s!"returned {showMsg m}" | .raised => "raised" | .blocked => "blocked")
+    | _, _ => (st, "parse-error")
+  | ["predrain", eof] =>
+    match parseBool eof, ((gs.drop 1).headD []).mapM parseMsg with
+    | some e, some ms => (st, if preDrain ms e then "raises" else "clean")
+    | _, _ => (st, "parse-error")
   | _ =>
     match parseLabel gs with
     | none => (st, "parse-error")
